@@ -437,10 +437,29 @@ def run_routes(case):
   return routes_agree(case[0], f, spec, canon)
 
 
+def gen_types(run):
+  from ..routes import struct_params
+  try:
+    T = route_table()
+  except Exception:
+    T = {}
+  for name, ent in T.items():
+    if struct_params(ent[1]):
+      yield (name,)
+
+
+def run_types(case):
+  from ..routes import struct_params, types_agree
+  ent = route_table()[case[0]]
+  return types_agree(case[0], ent[0], ent[1], ent[2], struct_params(ent[1]))
+
+
 KINDS = OrderedDict([
   ("single", Kind(gen_single, run_single, chunk=2, rule="filter x coefficient type; all grid frequencies inside the case")),
   ("banks", Kind(gen_banks, run_bank, chunk=10, rule="cascade / parallel of 1..3 filters incl. shared denominators")),
   ("time", Kind(gen_time, run_time, chunk=2, rule="DFT / steady-state links for FIR filters; dft properties")),
   ("call-routes", Kind(gen_routes, run_routes, chunk=1,
                        rule="each function with every documented parameter set: all positional / all keyword / every split must agree")),
+  ("param-types", Kind(gen_types, run_types, chunk=1,
+                       rule="structural integer parameters given as integral float / Fraction / bool: same result wherever the type is accepted")),
 ])
